@@ -25,3 +25,4 @@ def run(ctx):
     ctx.children(b, 1, run='TestC06Groups', timeout=1200)
     ctx.children(b, 1, run='TestC06Generics', timeout=300)
     ctx.children(b, 1, run='TestC06SameName', timeout=300)
+    ctx.children(b, 1, run='TestC06Retarget', timeout=300)
